@@ -127,6 +127,7 @@ CopyEqual == [][last'.o.op = "copy" /\ last'.ret = "ok" => objs'[Len(objs')] = o
 
 DepthBound4 == TLCGet("level") <= 4
 DepthBound5 == TLCGet("level") <= 5
+DepthBound6 == TLCGet("level") <= 6
 DepthBound7 == TLCGet("level") <= 7
 Emit == (KeepHist /\ Len(hist) = MaxDepth) => PrintT(ToJson([kind |-> Kind, steps |-> hist]))
 =============================================================================
